@@ -10,3 +10,11 @@ check("C04", "exploration",
       "Differential runtime monitoring of catch/throw: fixed skeletons for every situation the statement names (throw after exit, after redo, non-unifying catchers, shared variables, rethrow, built-in errors) plus seeded random compositions; event log, answers and final error compared with the reference interpreter. The VerifOnRecover hook reports unwinding depth and handled/unhandled counts.",
       "Trusts the reference interpreter's implementation of ISO 7.8.9/7.8.10 (self-tested); error Context is not compared.",
       "differential testing against an executable reference interpreter (event-log + answer-sequence oracle)", "§3 C04")
+check("C09", "exploration",
+      "Differential runtime monitoring of database histories: every history of <=2 statements over a statement pool (exhaustive) and seeded longer histories mixing asserta/assertz/retract/retractall/abolish with open calls, open retracts and open clause/2 enumerations (nested, and updates from inside the enumerated predicate); the event log of everything every open call saw, every update outcome and the final listing are compared with a generation-stamped reference database (logical update view).",
+      "Trusts the reference database model (self-tested on ISO 7.5.4/8.9 examples); accepts both ISO-allowed behaviours of an open retract reaching an erased clause; abolish of a non-existent procedure not asserted.",
+      "differential testing of recorded histories against a sequential reference model (logical update view)", "§3 C09")
+check("C11", "exploration",
+      "Differential runtime monitoring of findall/bagof/setof over seeded fact tables with variant/non-variant witnesses, arbitrary templates, ^-quantification, nested all-solutions calls, throwing goals and bound/partial/non-list instance arguments; answers compared with the reference interpreter (sequence for findall, multiset where group order is open).",
+      "Trusts the reference implementation of ISO 8.10 (self-tested); group order and results hinging on the order of unbound variables are not asserted.",
+      "differential testing against an executable reference interpreter (answer multiset/sequence oracle)", "§3 C11")
